@@ -12,236 +12,310 @@ Definition show_fres (r : fres) : string :=
   end.
 Definition check (rs : list rune) : string := digest (show_fres (format_res rs)).
 Definition full (rs : list rune) : string := show_fres (format_res rs).
-Eval vm_compute in ("<<<M1829>>>" ++ check (runes_of_ascii "packet Z9_ {
-    @calculatedFrom(""1"")
-    match body as u8x {
-        [7] : u,
-        [
-            7, 00, ""a\""b"", """", ""\n"",
-            00
-        ] : charz,
-        1 : Packet,
-        """ ++ [28040; 24687]%N ++ runes_of_ascii """ : f32a,
-        00 : len,
-    },
-    @lengthOf(calculatedFrom)
-    MetaDataX,
-    Packet @lengthOf(int),
-    repeat char[7] calculatedFrom,
-    @calculatedFrom(""a\\"")
-    zchar[255] f32a @calculatedFrom(""" ++ [233]%N ++ runes_of_ascii "t" ++ [233]%N ++ runes_of_ascii """),
-    @calculatedFrom(""a\""b"")
-    char[7] i8i8 @calculatedFrom(""a\\"") `crlf
-    line`,
-    zchar[0123456789] x `line1
-    line2`,
-    @leftPad()
-    repeat u64 stringy,
-    @lengthOf(x)
-    repeat body {
-        //	t
-        Z9_ {
-            repeat asx,
-            repeat crc i64_,
-            repeat rootA {
-                repeat rootA MetaDataX `line1
-                line2`,
-                match i64_ as calculatedFrom {
-                    7 : x,
-                    [7] : stringy,
-                    ""1"" : i8i8,
-                    [
-                        ""1"", 42, """ ++ [233]%N ++ runes_of_ascii "t" ++ [233]%N ++ runes_of_ascii """, 10, 255,
-                        0, 10
-                    ] : u,
-                    ""x y"" : i8i8,
-                },
-                uint64 _x `
-                `,
-                char[0] i64_ @calculatedFrom(""CRC32""),
-            },
-            x_y_z {
-                char[] T,
-            },
-        },
-        repeat u64 Foo `a\`,
-        uint8 uint8x,
-        match roots as chars {
-            1 : _x,
-            ""a\""b"" : uint8x,
-            42 : metadata,
-            // `tick` ""quote"" 'q'
-            [""\n"", 255] : zchar,
-            [
-                """ ++ [233]%N ++ runes_of_ascii "t" ++ [233]%N ++ runes_of_ascii """, 3, 4294967296,
-                0123456789, ""x y""
-            ] : metadata,
-            [""it's"", ""// no comment""] : Z9_,
-        },
-    },
-}// a // b
+Eval vm_compute in ("<<<M1562>>>" ++ check (runes_of_ascii "
+packet Z9_	//x
+    {@calculatedFrom(
+	""1"" ) match 
+body
+	as
+u8x
 
-MetaData rootA {
-    char[4294967296] msg_type,// @lengthOf(
-    char[] u128,
-    uint64 a1,
-    int8 crc,
-    Pad msg_type `doc`,
-}
+    {[7
+	] :
+u
+,	[ 7,
+    00 
+, ""a\""b""
+,""""
+,
 
-//	t
-/// triple
-packet x_y_z {
-    @lengthOf(crc)
-    match packetx as f32a {
-        0123456789 : A,
-        00 : u,
-        // @lengthOf(
-    },
-}")).
-Eval vm_compute in ("<<<M1457>>>" ++ check (runes_of_ascii "
-options
-{  StringPrefixLenType  =
-u16;
+    ""\n"" 
+, 00
 
-    ArrayPrefixLenType  = u16 ;
-}
-packet 
-SampleBinary {
+]
 
-    uint16 MsgType 
-`" ++ [28040; 24687; 31867; 22411]%N ++ runes_of_ascii "` , u16
-	BodyLenght @lengthOf(
+    :
+charz , 1
 
-Body
+    :	// c
+    	Packet ,""" ++ [28040; 24687]%N ++ runes_of_ascii """ :
+    f32a
+    ,  00 :	// trailing space 
+    len
+	}	,
 
-    ) 
-`" ++ [28040; 24687; 20307; 38271; 24230]%N ++ runes_of_ascii "`
-, match	MsgType
+    @lengthOf(  calculatedFrom
 
-    as	Body
-{
+) MetaDataX
 
-    1 : Logon  , 2 
-:	Logout 
-, 3 
-:  Heartbeat
-	,4 :
-RiskControlRequest  , 5
+    ,
 
-    : RiskControlResponse ,
-}	,	@calculatedFrom(
-	""CRC32""
+Packet @lengthOf(
 
+    int )
+    ,  repeat 	 // `tick` ""quote"" 'q'
+char[	7 
+]
+calculatedFrom,
+@calculatedFrom(
+""a\\""
+	)
+	zchar[ 	 //
+	255 // " ++ [128512]%N ++ runes_of_ascii " emoji
+	]f32a@calculatedFrom(
+    """ ++ [233]%N ++ runes_of_ascii "t" ++ [233]%N ++ runes_of_ascii """  ) 
+,
+@calculatedFrom(
+""a\""b"" // packet A { u8 x, }
+)char[
+	7 
+
+    //	t
+    ]
+
+    i8i8
+	@calculatedFrom(
+
+    ""a\\""
     )
 
-u32  Ckecksum `" ++ [26657; 39564; 21644]%N ++ runes_of_ascii "`, }
-
-packet
-	Logon{
-    @leftPad(
-
-    '0'	)
-char[10  ] UserName	`" ++ [29992; 25143; 21517]%N ++ runes_of_ascii "`
-,
-string
-
-    Password 
-`" ++ [23494; 30721]%N ++ runes_of_ascii "`
-	,
-
-    uint64
-	ClientId
-
-`" ++ [23458; 25143; 31471]%N ++ runes_of_ascii "ID`
-,u16
-
-HeartbeatInterval
-
-`" ++ [24515; 36339; 38388; 38548]%N ++ runes_of_ascii "`
-
+    `crlf
+line`
 ,
 
-    }
-
-packet 
-Logout
-    {
-
-@rightPad(	'0'  )char[10
+zchar[ 0123456789
     ]
-UserName `" ++ [29992; 25143; 21517]%N ++ runes_of_ascii "`, 
-uint64 ClientId`" ++ [23458; 25143; 31471]%N ++ runes_of_ascii "ID` 
+
+    x  `line1
+line2`
+
+    ,@leftPad
+
+( 
+)
+repeat
+u64
+stringy
+,
+	@lengthOf(	x )
+repeat  body {//	t
+  Z9_ {
+repeat	asx  , repeat 
+crc
+    i64_// " ++ [27880; 37322]%N ++ runes_of_ascii "
+    ,
+
+repeat rootA
+{  repeat rootA MetaDataX
+    `line1
+line2`
+        // `tick` ""quote"" 'q'
+	,
+match
+i64_ 
+as 
+calculatedFrom	{
+
+7 : x
+[	7]
+:stringy	,
+
+    ""1"" 
+: i8i8,
+
+[ ""1"" ,
+42
+    ,
+        // trailing space 
+/// triple
+		""" ++ [233]%N ++ runes_of_ascii "t" ++ [233]%N ++ runes_of_ascii """	, 
+10 ,
+
+255
+	,	0 
+,
+
+10 
+]
+    : u ,
+
+""x y"" 
+:
+
+    i8i8 } 
+
+// `tick` ""quote"" 'q'
+
+//x
+,
+uint64
+	_x
+`
+` , 
+char[
+
+0
+
+]
+	i64_
+
+@calculatedFrom( ""CRC32"" )
+    ,
+	},
+
+x_y_z{	char[]T 
+	// a // b
+  	// @lengthOf(
+    ,
+}
+
+, }
+	,  repeat
+	u64
+
+Foo	`a\`, 
+uint8
+
+    uint8x
+
+,  match 
+
+    //	t
+
+  // trailing space 
+	roots
+	as chars
+{
+
+1	: _x
+""a\""b""
+    :
+
+uint8x
+    , 
+42:metadata// " ++ [128512]%N ++ runes_of_ascii " emoji
+	,// `tick` ""quote"" 'q'
+
+[// @lengthOf(
+  	""\n""	,
+    255
+    ] :
+zchar [
+""" ++ [233]%N ++ runes_of_ascii "t" ++ [233]%N ++ runes_of_ascii """
+,
+3  ,
+
+4294967296
+,  // trailing space 
+
+  0123456789 ,
+
+""x y""
+]
+
+: metadata
+    [ // c
+
+	""it's""
+, ""// no comment"" ]: 
+Z9_,
+}
+
+,
+} , }	// a // b
+
+MetaData
+rootA
+{ char[	4294967296  ]	msg_type
+
+,// @lengthOf(
+
+	char[]u128
+	,uint64 a1
+    ,int8 
+crc ,	Pad
+
+msg_type `doc` 
+,
+	} 
+    //	t
+
+/// triple
+    packet x_y_z	{  @lengthOf(crc  ) match packetx
+as
+    f32a
+
+{ 0123456789
+    : A
+	,  00 :
+
+    u  // @lengthOf(
+	} 
 , }
 
-packet
-    Heartbeat
-	{}
-packet
+")).
+Eval vm_compute in ("<<<M1863>>>" ++ check (runes_of_ascii "MetaData Pad {
+    char[] Packet,
+    f32a i64_ `tab	here`,
+}
 
-RiskControlRequest
-{string
-    UniqueOrderId `" ++ [21807; 19968; 35746; 21333; 21495]%N ++ runes_of_ascii "` ,char[16
-]
-	ClOrdID
-	`" ++ [23458; 25143; 35746; 21333; 21495]%N ++ runes_of_ascii "` 
-, char[
+root packet As {
+    @calculatedFrom(""CRC32"")
+    @calculatedFrom(""1"")
+    @calculatedFrom(""// no comment"")
+    As As `say ""hi""`,
+    Foo msg_type,
+    calculatedFrom @calculatedFrom(""\n""),
+    zchar {
+        zchar[7] charz @calculatedFrom(""x y""),
+        Z9_ `{ , }`,
+        repeat int {
+            zchar[3] i8i8 @lengthOf(chars),
+            match zchar as o {
+                1 : u128,
+                0 : stringy,
+                42 : charz,
+                ""x y"" : a1,
+                3 : Header,
+                4294967296 : o,
+            },
+            repeat Header `two words`,
+            match u8x as u8x {
+                [10] : pack,
+                1 : BodyLength,
+                //
+                // " ++ [27880; 37322]%N ++ runes_of_ascii "
+                0 : MetaDataX,
+                42 : calculatedFrom,
+            },
+        },
+    },// " ++ [27880; 37322]%N ++ runes_of_ascii "
+}
 
-3 
-]MarketID `" ++ [24066; 22330]%N ++ runes_of_ascii "id`
+// `tick` ""quote"" 'q'
+/// triple
+packet i64_ {
+}
 
-    , char[ 12
-]  SecurityID 
-`" ++ [35777; 21048; 20195; 30721]%N ++ runes_of_ascii "`
+root packet x {
+    Header {
+        char[0] _x `// not a comment`,
+    },
+    @lengthOf(A)
+    uint32 f32a @calculatedFrom(""abc""),
+    repeat i16 trueish `u8 x,`,
+    @rightPad(' ')
+    @calculatedFrom(""a\\"")
+    float,
+    repeat char[7] zchar,
+    @tag(10)
+    repeat a1 falsey `say ""hi""`,
+    @lengthOf(len)
+    repeat zchar[00] uint8x,
+}
 
-,  char Side
-    `" ++ [20080; 21334; 26041; 21521]%N ++ runes_of_ascii "` ,
-
-    char  OrderType
-	`" ++ [35746; 21333; 31867; 22411]%N ++ runes_of_ascii "` 
-, u64  Price `" ++ [20215; 26684]%N ++ runes_of_ascii "`,	u32
-
-    Qty	`" ++ [25968; 37327]%N ++ runes_of_ascii "`
-,
-repeat	string
-ExtraInfo`" ++ [38468; 21152; 20449; 24687]%N ++ runes_of_ascii "` 
-,  repeat
-
-SubOrder { char[
-
-    16 ]  ClOrdID`" ++ [23376; 35746; 21333; 21495]%N ++ runes_of_ascii "`
-,
-
-u64
-
-    Price`" ++ [23376; 35746; 21333; 20215; 26684]%N ++ runes_of_ascii "`
-
-    ,
-
-    u32	Qty `" ++ [23376; 35746; 21333; 25968; 37327]%N ++ runes_of_ascii "` , } 
-,}packet 
-RiskControlResponse
-	{
-    string UniqueOrderId `" ++ [21807; 19968; 35746; 21333; 21495]%N ++ runes_of_ascii "`
-,i32
-
-    Status`" ++ [29366; 24577]%N ++ runes_of_ascii "`,
-	string	Msg
-	`" ++ [32467; 26524; 20449; 24687]%N ++ runes_of_ascii "`
-
-    ,	repeat
-
-Detail, } packet 
-Detail{
-
-string
-	RuleName 
-`" ++ [35268; 21017; 21517; 31216]%N ++ runes_of_ascii "` ,
-u16
-Code 
-`" ++ [21407; 22240; 20195; 30721]%N ++ runes_of_ascii "`
-    ,
-
+MetaData metadata {
+    u8 body,
 }")).
 Eval vm_compute in ("<<<M231>>>" ++ check (runes_of_ascii "root packet
     metadata {  @lengthOf(
@@ -300,7 +374,7 @@ _x `it's` , int32 body ,
     // trailing space 
     } root	packet body{  }
 ")).
-Eval vm_compute in ("<<<M1924>>>" ++ check (runes_of_ascii "// top
+Eval vm_compute in ("<<<M1829>>>" ++ check (runes_of_ascii "// top
 options {
     // c1a
     // c1b
@@ -358,483 +432,460 @@ root packet Order {
     u32 seqNo @calculatedFrom(""CRC32""),
     // c106
 }// c107")).
-Eval vm_compute in ("<<<M104>>>" ++ check (runes_of_ascii "options{  matchKey = ""x y""
-    ;	MetaDataX
-= '0'
-;
-} packet // c
-msg_type { @rightPad ( ' '  )repeat u128 body	, match body	as /// triple
-pack{ [ ""\" ++ [233]%N ++ runes_of_ascii """ , ""1"" ]: BodyLength
-, [ 255
-, ""a	b"" , ""a\\"" , ""{,}""
-,  007 , 007 ,
-    0123456789
-] : options1	,	} ,@leftPad
-()@lengthOf(charz	)
-@tag(	42
-) o{	i32 msg_type @lengthOf( A )// " ++ [27880; 37322]%N ++ runes_of_ascii "
-`doc` ,zchar[ 1] charz  , // c
-i8 packetx`{ , }`,
-msg_type `crlf
-line`
-    , }	,
-@calculatedFrom( ""\" ++ [233]%N ++ runes_of_ascii """ ) Z9_ @calculatedFrom(
-""" ++ [128512]%N ++ runes_of_ascii """ )`tab	here` ,
-repeat char[] Foo ,
-repeat zchar[ 0123456789]	u128
-, }	packet f32a{
-    f32a @lengthOf( matchKey )//x
-, @rightPad (
-    ' ' // " ++ [27880; 37322]%N ++ runes_of_ascii "
-)@lengthOf( chars ) _x Foo  `` ,  match
-    body // c
-as
-    body
-    {	[4294967296
-    , ""packet"", 3 , """ ++ [128512]%N ++ runes_of_ascii """
-,
-0123456789  ]
-: T [ ""a\\"" ]// `tick` ""quote"" 'q'
-: T
-, ""\n""
-:
-u8x , }
-//	t
-//x
-,} //x
-root packet lengthOf
-{ }
-")).
-Eval vm_compute in ("<<<M1775>>>" ++ check (runes_of_ascii "  //x
-packet
-
-    x
-    {	@lengthOf(
-string_
-
-)
-
-// `tick` ""quote"" 'q'
-    // trailing space 
-msg_type{ int// a // b
-
-@lengthOf(
-
-    chars  )
-
-    //x
-		// " ++ [27880; 37322]%N ++ runes_of_ascii "
-	`" ++ [28040; 24687; 31867; 22411]%N ++ runes_of_ascii "` ,
-int
-    `a\`
-
-    ,}
-    , 
-uint32 
-chars 
-@calculatedFrom( ""`tick`""	) 
-`
-` ,@lengthOf( 
-packetx 	 // trailing space 
-	)
-	match 
-metadata 
-as
-    x_y_z {
-65535:
-x ,007
-	    // `tick` ""quote"" 'q'
-
-  // " ++ [128512]%N ++ runes_of_ascii " emoji
-
-: 
-u
-    [7	, ""// no comment""
-
-    , """ ++ [28040; 24687]%N ++ runes_of_ascii """
-	]
-
-: x""a\\""
-	:MetaDataX 
-,
-
-0123456789 : lengthOf 10
-: 
-//
-
-  // `tick` ""quote"" 'q'
-      float
-
-} ,  u16 Logon
-    @calculatedFrom(
-    ""x y""	)
-    `tab	here` 
-	    //	t
-
-//
-
-,	@lengthOf(
-
-    Foo)zchar	/// triple
-
-	, }
-	packet
-	tag
-{ }	root packet
-    x_y_z
-{
-}	MetaData
-int
-
-    {
-	string
-
-A
-	`" ++ [233]%N ++ runes_of_ascii "` ,}
-")).
-Eval vm_compute in ("<<<M1315>>>" ++ check (runes_of_ascii "// top
-packet // c0
-MDSnapshotZZ // c1a
-  // c1b
-{ // c2
-u8 a // c4
-, // c5a
-  // c5b
-} // c6
-packet OrderACK // c8
-{ // c9a
-  // c9b
-u16 b // c11
-,
-    // c12
-} // c13a
-  // c13b
-packet
-    // c14
-HTTPServerInfo
-    // c15
-{ // c16
-string s
-    // c18
-,
-    // c19
-}
-    // c20
-root // c21a
-  // c21b
-packet // c22
-FIXMsg // c23
-{ u8 // c25a
-  // c25b
-KType // c26a
-  // c26b
-, // c27a
-  // c27b
-MDSnapshotZZ
-    // c28
-, // c29a
-  // c29b
-repeat
-    // c30
-OrderACK , // c32a
-  // c32b
-match // c33
-KType as // c35a
-  // c35b
-Body // c36
-{
-    // c37
-1 :
-    // c39
-HTTPServerInfo , 2 // c42
-:
-    // c43
-OrderACK
-    // c44
-, } // c46a
-  // c46b
-,
-    // c47
-} // c48a
-  // c48b
-")).
-Eval vm_compute in ("<<<M206>>>" ++ check (runes_of_ascii "//x
+Eval vm_compute in ("<<<M188>>>" ++ check (runes_of_ascii "// packet A { u8 x, }
 root
-    // " ++ [128512]%N ++ runes_of_ascii " emoji
     packet
-// `tick` ""quote"" 'q'
-/// triple
-float{options1 A
-,@tag(
-42 )
-    u8x{ tag //x
-@calculatedFrom(	""\" ++ [233]%N ++ runes_of_ascii """) // packet A { u8 x, }
-`tab	here` ,
-    }
-    , int16 asx ,
-    @lengthOf( o
-    )
-@rightPad( ) repeat int
-/// triple
-/// triple
-Logon,@calculatedFrom(""// no comment"" )  @leftPad('\x00')
-    @rightPad('0'	)	zchar[ 65535 //x
-] o `
-`
-    ,
-    repeat As{ //x
-repeat uint16 o ,repeat
-char[ // trailing space 
-1
-    ]o ,
-u128
-metadata	, repeat char[7	] Header ,
-    } , @tag( 0123456789
-    ) a1 tag
-    , float32 asx ,
-    repeat // packet A { u8 x, }
-len
-``
-    ,}
-")).
-Eval vm_compute in ("<<<M327>>>" ++ check (runes_of_ascii "root packet asx
-    { tag body `u8 x,` , }
-packet string_ {
-    @lengthOf(
-len // a // b
-)repeat	zchar[ 42 ] u8x,zchar[ 0 ] asx
-    , } packet
-// " ++ [128512]%N ++ runes_of_ascii " emoji
-// " ++ [27880; 37322]%N ++ runes_of_ascii "
-int {repeat crc
-    { zchar float , match
-    i8i8 as rootA//x
-{ 255 : lengthOf , 1 :lengthOf
-,3
-    :
-roots , 3 : uint8x ,0
-    :As , ""`tick`"" :	repeatCount , }  , repeat
-/// triple
-//
-char[]
-falsey ,
-    u64 lengthOf ,} , @lengthOf( crc ) lengthOf i64_ , leftPad
-`crlf
-line`, }
-    root	packet zchar{ f32 _x @calculatedFrom( ""a\\"" ), }	MetaData chars // trailing space 
-{//
-}")).
-Eval vm_compute in ("<<<M1346>>>" ++ check (runes_of_ascii "options {
-    ArrayPrefixLenType = u64;
-    FixedStringPadFromLeft = true;
-    FixedStringPadChar = '0';
-}
-packet Quote {
-}
-packet Ack {
-    repeat InNote66 {
-        u8 pad0,
-    },
-}
-packet Reject {
-}
-root packet Order {
-    Quote,
-    repeat Reject,
-    string venue,
-    string seqNo,
-    uint32 Ref,
-    u16 lastPx,
-    u32 clOrdID @lengthOf(Body),
-    match lastPx as Body {
-        190 : Reject,
-        186 : Quote,
-        22 : Ack,
-    },
-    u16 Flags @calculatedFrom(""CRC32""),
-}
-")).
-Eval vm_compute in ("<<<M180>>>" ++ check (runes_of_ascii "options
-    // @lengthOf(
-    {}
-packet charz { @rightPad (  ' ') @calculatedFrom(
-    ""a\\"" ) repeat int	crc `two words` , string stringy
-    @calculatedFrom( ""a	b""
+    leftPad { @calculatedFrom(
+    //x
+    ""`tick`"" )	@rightPad( )
     // " ++ [128512]%N ++ runes_of_ascii " emoji
-    )`// not a comment`	,//
-char i8i8,
-}  MetaData	crc {// `tick` ""quote"" 'q'
-crc i64_`{ , }`
+    string_
+// `tick` ""quote"" 'q'
+// a // b
+@lengthOf(	tag
+    ) `a\` ,i64 T
+    `" ++ [233]%N ++ runes_of_ascii "`,//	t
+}
+packet
+Pad// @lengthOf(
+{ @lengthOf(	float ) char[] x@calculatedFrom(
+    ""a\""b"")
+    , // trailing space 
+@tag(
+    0// " ++ [128512]%N ++ runes_of_ascii " emoji
+) // " ++ [27880; 37322]%N ++ runes_of_ascii "
+repeatCount// packet A { u8 x, }
 ,
-    // `tick` ""quote"" 'q'
-    i32// c
-u128 ,// packet A { u8 x, }
-BodyLength Header
-    ,char[ 0123456789]
+repeat rootA{
+_x
+    ,zchar[3 ]roots
+    /// triple
+    `crlf
+line` ,
+}
+,
 /// triple
-//
-Packet `u8 x,`
-, uint8 repeatCount , //	t
-}")).
-Eval vm_compute in ("<<<M306>>>" ++ check (runes_of_ascii "packet rootA { @tag(0123456789 ) options1 {int32 uint8x
-    `u8 x,`
-    , u8x
-//x
-// packet A { u8 x, }
-{
-    match Header as
-    metadata {[	10 ]
-: pack } ,
-    } , f64 // `tick` ""quote"" 'q'
-chars , }
-, @lengthOf( body ) u64
-// @lengthOf(
-//
-Z9_ , }
-MetaData repeatCount
-    {zchar[10 ] string_ , f64 A
-, u32 BodyLength , zchar[ 00 ] uint8x ,
-    trueish
-leftPad,char[ 65535  ] rootA	, }
-//	t
-")).
-Eval vm_compute in ("<<<M1556>>>" ++ check (runes_of_ascii "packet T {
-    @tag(00)
-    repeat char[] charz `
-    `,
-    char[0123456789] BodyLength @lengthOf(Z9_) `u8 x,`,
+// a // b
+match
+    metadata as BodyLength
+    { [
+    // c
+    10 , 10 , ""a\""b"", """"	, ""\n""
+,  ""a\\"" , 4294967296]  :
+    u
+, }
+, repeat	i64_ Packet `" ++ [28040; 24687; 31867; 22411]%N ++ runes_of_ascii "`
+,@tag( // packet A { u8 x, }
+65535)
+    char[] float`it's`
+, char[7 ]
+    x @calculatedFrom( ""{,}"" ),
+    }MetaData leftPad// a // b
+{ body rootA
+`crlf
+line`
+, int64
+msg_type
+`doc`
+    , // @lengthOf(
 }
-
-MetaData crc {
-    float64 int `" ++ [28040; 24687; 31867; 22411]%N ++ runes_of_ascii "`,
-    As Logon ``,// `tick` ""quote"" 'q'
-    uint8 u,
-    u32 stringy `
-    `,
-    // a // b
-    //	t
-    uint64 uint8x,
-    asx calculatedFrom,//x
-}
-
-MetaData chars {
-    char[1] chars,
-}// trailing space ")).
-Eval vm_compute in ("<<<M240>>>" ++ check (runes_of_ascii "
-packet BodyLength { repeatCount // packet A { u8 x, }
-`// not a comment`
-,
-@lengthOf( lengthOf	)  @tag( 65535
-    )@rightPad (
-// @lengthOf(
-//	t
-'0' )/// triple
-u8 Logon , } packet chars { o msg_type , @tag( 10)zchar[ 65535
-] f32a
-,repeat char[]
-i64_
-`
-` ,} root packet f32a { @tag( 255 )repeat u8 stringy, }
 ")).
-Eval vm_compute in ("<<<M1138>>>" ++ check (runes_of_ascii "// top
-MetaData // c0
-leftPad // c1
-{ // c2
-chars // c3
-MetaDataX // c4
-, // c5
-} // c6
-packet // c7
-repeatCount // c8
-{ // c9
-char[ // c10
-255 // c11
-] // c12
-uint8x // c13
-`" ++ [233]%N ++ runes_of_ascii "` // c14
-, // c15
-} // c16
-MetaData // c17
-pack // c18
-{ // c19
-As // c20
-Foo // c21
-, // c22
-} // c23
-")).
-Eval vm_compute in ("<<<M1253>>>" ++ check (runes_of_ascii "// top
-packet // c0
-Inner // c1
-{ // c2
-u8 // c3a
-  // c3b
-a // c4
-,
-    // c5
-} // c6
-root // c7
-packet // c8a
-  // c8b
-P // c9
-{ // c10a
-  // c10b
-repeat // c11a
-  // c11b
-Inner items // c13
-, // c14
-u8
+Eval vm_compute in ("<<<M1124>>>" ++ check (runes_of_ascii "// top
+options
+    // c0
+{ // c1
+uint8x // c2a
+  // c2b
+= 007 // c4a
+  // c4b
+; lengthOf
+    // c6
+= i8 ; // c9a
+  // c9b
+} packet i64_
+    // c12
+{ // c13
+@calculatedFrom( // c14
+""1""
     // c15
-x , // c17a
-  // c17b
-} // c18
+) // c16
+@tag( // c17
+3 )
+    // c19
+@lengthOf(
+    // c20
+rootA ) // c22
+repeat // c23
+int8 // c24a
+  // c24b
+Packet // c25a
+  // c25b
+`u8 x,` // c26
+, // c27
+} // c28a
+  // c28b
+root
+    // c29
+packet // c30a
+  // c30b
+stringy
+    // c31
+{ // c32a
+  // c32b
+@rightPad ( ' ' // c35
+) // c36
+repeat // c37a
+  // c37b
+char[ // c38
+10 // c39
+] repeatCount // c41a
+  // c41b
+, // c42
+@tag( // c43a
+  // c43b
+255
+    // c44
+) // c45
+float64
+    // c46
+msg_type
+    // c47
+@calculatedFrom( ""packet""
+    // c49
+) // c50a
+  // c50b
+, // c51a
+  // c51b
+} // c52
 ")).
-Eval vm_compute in ("<<<M351>>>" ++ check (runes_of_ascii "MetaData leftPad// packet A { u8 x, }
-{ string u128 `say ""hi""` //
+Eval vm_compute in ("<<<M117>>>" ++ check (runes_of_ascii "// a // b
+packet	u128  {
+    repeat chars	{i64 u8x
+`
+`// a // b
 , // c
-A packetx
-    //	t
-    , char[
-//
-// packet A { u8 x, }
-42
-]
-leftPad
-    `tab	here` // trailing space 
-,i16 crc ,
-string uint8x // a // b
+_x
+@lengthOf(  falsey
+    )
 ,
-}")).
-Eval vm_compute in ("<<<M1311>>>" ++ check (runes_of_ascii "options {
-    FixedStringPadChar = '0';
-}
-packet Q {
-    zchar[4] z,
-    @rightPad('\x00') char[3] n,
-    char[5] d,
-}
-root packet R {
-    Q,
-    zchar[8] top,
-    repeat zchar[2] zs,
-}
+    Logon
+`" ++ [28040; 24687; 31867; 22411]%N ++ runes_of_ascii "` ,repeat char[]
+trueish `tab	here` ,}
+    , } root packet T { match Packet
+as
+trueish {
+""packet"" : charz
+    ,
+    [4294967296 , ""1"" ] : A , 7 : x
+    // " ++ [27880; 37322]%N ++ runes_of_ascii "
+    , [
+    // a // b
+    7 ,""a	b""
+    ]
+:	u128 255 :
+As
+    3:
+Packet,} ,
+//	t
+// trailing space 
+pack
+`a\` , @calculatedFrom( """ ++ [233]%N ++ runes_of_ascii "t" ++ [233]%N ++ runes_of_ascii """ //	t
+)
+    rootA matchKey  ,
+char[ 65535]/// triple
+leftPad @lengthOf( roots
+    //
+    ) , repeat MetaDataX { u64
+    a1 @calculatedFrom(""x y"" ) `doc`  ,//	t
+uint8 falsey
+,
+match BodyLength as A
+{  [ ""\" ++ [233]%N ++ runes_of_ascii """,255 ,"""" ,
+    ""it's"" ] :	Foo ,
+3 : u128}	, } ,	}
 ")).
-Eval vm_compute in ("<<<M1441>>>" ++ check (runes_of_ascii "// top
-packet Inner {
-    // c2a
-    // c2b
-    u8 a,
+Eval vm_compute in ("<<<M1344>>>" ++ check (runes_of_ascii "options { 
+LittleEndian 
+=
+false;
+    ArrayPrefixLenType=  u8 ;
+
+    FixedStringPadFromLeft
+	= true
+
+;
+    FixedStringPadChar
+= '0'; } packet Heartbeat{
+
+string
+
+    lastPx
+,  uint8
+Qty ,i64
+Acct , 
+char[
+4
+]
+    Ref,
+
+    }  packet Fill	{
+
+    uint8
+Ref ,
+
+Heartbeat	,
+	f32 OrderId
+
+, repeat
+	f32
+x , 
+}
+root packet
+
+Order {zchar[	2
+    ]  OrderId ,
+    zchar[
+2
+    ] Acct
+,zchar[ 
+1
+]Note,
+zchar[ 9]
+
+    Qty
+,
+string  price 
+,	string tag7
+
+    ,u32
+x ,match 
+x as
+
+    Body	{
+123
+:	Fill 
+,
+
+112:
+
+    Heartbeat,
 }
 
-// c6
-root packet P {
-    // c10
-    Inner ref_obj,// c13a
-    // c13b
-    u8 x,
-    // c16
-}// c17a
-// c17b")).
-Eval vm_compute in ("<<<M396>>>" ++ check (runes_of_ascii "packet uint8x uint8x
+    ,
+
+u32 seqNo@calculatedFrom(
+	""CRC32"")
+	,	}
+")).
+Eval vm_compute in ("<<<M66>>>" ++ check (runes_of_ascii "packet	int {// @lengthOf(
+repeat
+string
+    BodyLength
+    `a\`
+    , } packet repeatCount { @lengthOf( x_y_z ) crc ,
+    match Packet as
+Z9_{""// no comment"" :MetaDataX ,
+//	t
+// a // b
+[  00, 7]: chars ,""CRC32""
+    : zchar 42: stringy //	t
+, [ ""a\""b"",""1""// a // b
+] : u ,
+},
+@rightPad
+( ' ' )
+@lengthOf( i64_//x
+)
+    repeat
+f64
+x `two words`
+    , @calculatedFrom(""`tick`""	) int64 falsey @lengthOf(//x
+u128 ) , charz
+    {
+    //x
+    char[]
+    T
+// c
+// " ++ [27880; 37322]%N ++ runes_of_ascii "
+`a\` ,
+}
+,@lengthOf(
+    u8x)string_, repeat
+// " ++ [128512]%N ++ runes_of_ascii " emoji
+//	t
+x
+    , }
+")).
+Eval vm_compute in ("<<<M1668>>>" ++ check (runes_of_ascii "packet tag {
+    string matchKey `line1
+        line2`,
+    @tag(0)
+    // c
+    @calculatedFrom(""1"")
+    @calculatedFrom(""a\""b"")
+    float64 matchKey,
+}
+
+options {
+    crc = true
+    msg_type = true;
+}
+
+packet o {
+    match roots as calculatedFrom {
+        ""// no comment"" : msg_type,
+        ""{,}"" : u128,
+        [65535, 0123456789] : body,
+        // " ++ [128512]%N ++ runes_of_ascii " emoji
+    },
+    @rightPad(' ')
+    repeat string_ i64_,
+    @lengthOf(lengthOf)
+    @tag(255)
+    @tag(00)
+    char[] stringy,
+}")).
+Eval vm_compute in ("<<<M1874>>>" ++ check (runes_of_ascii "options {
+    rootA = 4294967296;
+    falsey = ""a\""b"";
+    As = """";
+    packetx = ""packet""
+    i8i8 = true;
+}// `tick` ""quote"" 'q'
+
+packet x {
+    repeat zchar rootA,
+    char[] pack `// not a comment`,
+    @tag(00)
+    @tag(0123456789)
+    u @calculatedFrom(""packet"") `u8 x,`,
+    Header {
+        zchar[00] body,
+        a1 @calculatedFrom(""it's"") `" ++ [233]%N ++ runes_of_ascii "`,
+    },
+}// " ++ [27880; 37322]%N ++ runes_of_ascii "
+
+MetaData A {
+    zchar matchKey ``,
+    int64 metadata,
+    char[] _x,
+}")).
+Eval vm_compute in ("<<<M1757>>>" ++ check (runes_of_ascii "options {
+    LittleEndian = false;
+    StringPrefixLenType = u8;
+    ArrayPrefixLenType = u64;
+    FixedStringPadFromLeft = false;
+    FixedStringPadChar = ' ';
+}
+
+packet Reject {
+    repeat char[4] seqNo,
+    string Px,
+}
+
+root packet Trade {
+    @rightPad('0')
+    char[2] msgKind,
+    repeat f64 price,
+    InAcct79 {
+        repeat Reject,
+        zchar[7] OrderId,
+    },
+    Reject,
+}")).
+Eval vm_compute in ("<<<M299>>>" ++ check (runes_of_ascii "// packet A { u8 x, }
+MetaData roots{ char[ 00]lengthOf
+``  , As stringy, x	calculatedFrom ,} packet i8i8	{
+crc `crlf
+line` , @rightPad// a // b
+( )zchar[ 42] falsey // trailing space 
+,
+    /// triple
+    @tag( 42 ) u32	leftPad  , @tag( 42 ) a1@lengthOf( Z9_ ) , match leftPad as crc{ [""a\""b"" , 1
+, 255
+]:	trueish ,3
+: float ,
+0 :lengthOf
+    ,
+} ,}")).
+Eval vm_compute in ("<<<M79>>>" ++ check (runes_of_ascii "packet	Pad //
+{ u32 i64_
+@lengthOf(u8x) `tab	here` , T,
+@tag(
+1) @calculatedFrom(	""CRC32""
+)
+    @leftPad ()
+    match stringy as lengthOf	{[ 255  ,	7
+    ,
+""CRC32""
+,""a	b"" , """ ++ [233]%N ++ runes_of_ascii "t" ++ [233]%N ++ runes_of_ascii """ ,// c
+""a\""b""
+    , ""\n"" ]: falsey  , /// triple
+} ,string i8i8// trailing space 
+@calculatedFrom( """ ++ [128512]%N ++ runes_of_ascii """
+    ) ,packetx, } // c")).
+Eval vm_compute in ("<<<M1946>>>" ++ check (runes_of_ascii "options {
+    A = i16;
+}
+
+/// triple
+root packet rootA {
+    @tag(7)
+    int16 pack,
+    Logon @calculatedFrom(""a\""b"") `{ , }`,
+    @rightPad('\x00')
+    //
+    //
+    char[7] options1 `tab	here`,
+    @calculatedFrom(""" ++ [233]%N ++ runes_of_ascii "t" ++ [233]%N ++ runes_of_ascii """)
+    int @lengthOf(Packet) `crlf
+        line`,
+}")).
+Eval vm_compute in ("<<<M1864>>>" ++ check (runes_of_ascii "packet Header {
+    @calculatedFrom(""a	b"")
+    char[255] falsey `tab	here`,
+    int8 u `doc`,
+    float32 lengthOf @calculatedFrom(""a	b""),
+    @rightPad(' ')
+    @tag(3)
+    float64 asx,
+    int8 metadata @lengthOf(zchar),
+    Pad f32a,
+}")).
+Eval vm_compute in ("<<<M18>>>" ++ check (runes_of_ascii "packet roots
+// a // b
+// " ++ [128512]%N ++ runes_of_ascii " emoji
+{ // " ++ [27880; 37322]%N ++ runes_of_ascii "
+@tag(0
+)
+    repeat // `tick` ""quote"" 'q'
+zchar[
+/// triple
+//x
+0
+]x , } options { As =""\" ++ [233]%N ++ runes_of_ascii """ ;pack = ' ' ; int = // `tick` ""quote"" 'q'
+'\x00' ; options1 =
+""`tick`"" ; }")).
+Eval vm_compute in ("<<<M121>>>" ++ check (runes_of_ascii "packet u128 { @calculatedFrom(  ""a	b"" ) // packet A { u8 x, }
+@leftPad( ' '
+) //	t
+@lengthOf(
+Header // packet A { u8 x, }
+) char[10
+    ] crc@lengthOf(
+len ) , } MetaData i8i8 { }
+")).
+Eval vm_compute in ("<<<M152>>>" ++ check (runes_of_ascii "packet T {
+int u ,
+@calculatedFrom( ""\" ++ [233]%N ++ runes_of_ascii """ ) // `tick` ""quote"" 'q'
+repeat// @lengthOf(
+string	x_y_z// a // b
+,
+uint32// `tick` ""quote"" 'q'
+int `crlf
+line` , }
+")).
+Eval vm_compute in ("<<<M521>>>" ++ check (runes_of_ascii "packet uint8x
 { match pack
     as msg_type	{
     0123456789 :	float
@@ -843,27 +894,25 @@ Eval vm_compute in ("<<<M396>>>" ++ check (runes_of_ascii "packet uint8x uint8x
 } packet //	t
 a1
     { } options {packetx
-    = '\x00'	; u128= ""a	b""  ; }
+    = '\x00'	; u128= ""a	b"" ""a	b""  ; }
 ")).
-Eval vm_compute in ("<<<M466>>>" ++ check (runes_of_ascii "packet uint8x
+Eval vm_compute in ("<<<M426>>>" ++ check (runes_of_ascii "packet uint8x
 { match pack
-    as msg_type	{
+    as msg_type	{ {
     0123456789 :	float
 }
 ,
 } packet //	t
-a1 a1
+a1
     { } options {packetx
     = '\x00'	; u128= ""a	b""  ; }
 ")).
-Eval vm_compute in ("<<<M1596>>>" ++ check (runes_of_ascii "packet A {
+Eval vm_compute in ("<<<M1299>>>" ++ check (runes_of_ascii "packet A {
     u8 a,
 }
-
 packet B {
     u16 b,
 }
-
 root packet P {
     u8 K,
     match K as M {
@@ -871,19 +920,9 @@ root packet P {
         3 : B,
         7 : A,
     },
-}")).
-Eval vm_compute in ("<<<M467>>>" ++ check (runes_of_ascii "packet uint8x
-{ match pack
-    as msg_type	{
-    0123456789 :	float
 }
-,
-} packet //	t
-{
-    a1 } options {packetx
-    = '\x00'	; u128= ""a	b""  ; }
 ")).
-Eval vm_compute in ("<<<M505>>>" ++ check (runes_of_ascii "packet uint8x
+Eval vm_compute in ("<<<M517>>>" ++ check (runes_of_ascii "packet uint8x
 { match pack
     as msg_type	{
     0123456789 :	float
@@ -892,80 +931,98 @@ Eval vm_compute in ("<<<M505>>>" ++ check (runes_of_ascii "packet uint8x
 } packet //	t
 a1
     { } options {packetx
-    = '\x00'	 u128= ""a	b""  ; }
+    = '\x00'	; u128""a	b"" =  ; }
 ")).
-Eval vm_compute in ("<<<M405>>>" ++ check (runes_of_ascii "packet uint8x
-{  pack
-    as msg_type	{
-    0123456789 :	float
-}
-,
-} packet //	t
-a1
-    { } options {packetx
-    = '\x00'	; u128= ""a	b""  ; }
-")).
-Eval vm_compute in ("<<<M490>>>" ++ check (runes_of_ascii "packet uint8x
-{ match pack
-    as msg_type	{
-    0123456789 :	float
-}
-,
-} packet //	t
-a1
-    { } options {
-    = '\x00'	; u128= ""a	b""  ; }
-")).
-Eval vm_compute in ("<<<M71>>>" ++ check (runes_of_ascii "root packet MetaDataX
-{repeat u8x len `" ++ [28040; 24687; 31867; 22411]%N ++ runes_of_ascii "`,
-As { u8x
-, } , int f32a
-`" ++ [233]%N ++ runes_of_ascii "`, @lengthOf( float ) Z9_
-// @lengthOf(
-// trailing space 
-`a\` , }")).
-Eval vm_compute in ("<<<M1454>>>" ++ check (runes_of_ascii "packet A {
+Eval vm_compute in ("<<<M666>>>" ++ check (runes_of_ascii "// @lengthOf(
+packet i8i8 { u128 u128 o , }
+options { MetaDataX = true;
+    BodyLength =""packet"" x_y_z= 007
+crc //x
+= ""abc"" ;
+    msg_type =
+i16 }")).
+Eval vm_compute in ("<<<M691>>>" ++ check (runes_of_ascii "// @lengthOf(
+packet i8i8 { u128 o , }
+options f64 MetaDataX = true;
+    BodyLength =""packet"" x_y_z= 007
+crc //x
+= ""abc"" ;
+    msg_type =
+i16 }")).
+Eval vm_compute in ("<<<M707>>>" ++ check (runes_of_ascii "// @lengthOf(
+packet i8i8 { u128 o , }
+options { MetaDataX = true;
+    BodyLength =MetaData x_y_z= 007
+crc //x
+= ""abc"" ;
+    msg_type =
+i16 }")).
+Eval vm_compute in ("<<<M1772>>>" ++ check (runes_of_ascii "packet A {
     match k as n {
         [
-            ""a"", ""bb"", ""c c"", ""d"", ""e"",
-            ""f""
+            1, ""bb"", 007, ""d"", 5,
+            ""f"", 7, ""h"", 9
         ] : B,
         2 : C,
     },
 }")).
-Eval vm_compute in ("<<<M259>>>" ++ check (runes_of_ascii "  MetaData repeatCount // c
-{char[
-42 // " ++ [27880; 37322]%N ++ runes_of_ascii "
-]
+Eval vm_compute in ("<<<M1490>>>" ++ check (runes_of_ascii "
+options {  LittleEndian  =
+true ;
+}
+	root
+packet P
+
+    {
+
+    u16 
+a ,
+
+    u32
+    Sum
+@calculatedFrom(
+""CR\
+C32"" 
+)
+,  }
+")).
+Eval vm_compute in ("<<<M223>>>" ++ check (runes_of_ascii "packet  u { repeat
     // " ++ [128512]%N ++ runes_of_ascii " emoji
-    MetaDataX ,
-    // @lengthOf(
-    zchar[
-// " ++ [27880; 37322]%N ++ runes_of_ascii "
-//x
-0] asx , }
+    A , @lengthOf( lengthOf
+)
+    repeat
+    i64
+i64_
+, //
+zchar[
+3// a // b
+] body , }
 ")).
-Eval vm_compute in ("<<<M171>>>" ++ check (runes_of_ascii "options { Pad=	'\x00' ; u
-= false  repeatCount
-    = false ;// trailing space 
-T
-=// a // b
-""CRC32"" ;
-    a1 = ""it's""}
-")).
-Eval vm_compute in ("<<<M1167>>>" ++ check (runes_of_ascii "MetaData leftPad { chars MetaDataX , } packet repeatCount { char[ 255 ] // c
-uint8x `" ++ [233]%N ++ runes_of_ascii "` , } MetaData pack { As Foo , }")).
-Eval vm_compute in ("<<<M1437>>>" ++ check (runes_of_ascii "packet A {
-    Inner {
-        u8 x `
-        `,
-        Deep {
-            u8 y `
-            `,
-        },
+Eval vm_compute in ("<<<M970>>>" ++ check (runes_of_ascii "packet A {
+    match k as n {
+        ""x\
+y"" : B,
+        [""x\
+y"", 1] : C,
+        [1,2,3,4,5,""x\
+y""] : D,
     },
 }")).
-Eval vm_compute in ("<<<M494>>>" ++ check (runes_of_ascii "packet uint8x
+Eval vm_compute in ("<<<M1173>>>" ++ check (runes_of_ascii "MetaData leftPad { chars MetaDataX , } packet repeatCount { char[ 255 ] uint8x `" ++ [233]%N ++ runes_of_ascii "` , // c
+} MetaData pack { As Foo , }")).
+Eval vm_compute in ("<<<M1319>>>" ++ check (runes_of_ascii "
+packet FooBar  {  u8
+	a , }
+    packet  foo_bar
+
+    {  u16 
+b
+
+    , } root
+	packet R{FooBar , foo_bar
+,	}
+")).
+Eval vm_compute in ("<<<M489>>>" ++ check (runes_of_ascii "packet uint8x
 { match pack
     as msg_type	{
     0123456789 :	float
@@ -973,155 +1030,134 @@ Eval vm_compute in ("<<<M494>>>" ++ check (runes_of_ascii "packet uint8x
 ,
 } packet //	t
 a1
-    { } options {")).
-Eval vm_compute in ("<<<M1285>>>" ++ check (runes_of_ascii "// top
-root
-    // c0
-packet // c1a
-  // c1b
-P
-    // c2
-{ // c3
-string s // c5a
-  // c5b
-,
-    // c6
-} ")).
-Eval vm_compute in ("<<<M1431>>>" ++ check (runes_of_ascii "MetaData chars {
-    x_y_z x `line1
-    line2`,
-    _x A `// not a comment`,
-}// `tick` ""quote"" 'q'")).
-Eval vm_compute in ("<<<M871>>>" ++ check (runes_of_ascii "packet A {
-  match k as n {
-    [""a"", 22, ""c c"", 4, ""e"", 66, ""g"", 8, ""i""] : B,
-    2 : C
-  },
-}")).
-Eval vm_compute in ("<<<M474>>>" ++ check (runes_of_ascii "packet uint8x
+    { } options")).
+Eval vm_compute in ("<<<M683>>>" ++ check (runes_of_ascii "// @lengthOf(
+packet i8i8 { u128 o , }
+options { MetaDataX = true;
+    BodyLength =""packet"" x_y_z= 007")).
+Eval vm_compute in ("<<<M479>>>" ++ check (runes_of_ascii "packet uint8x
 { match pack
     as msg_type	{
     0123456789 :	float
 }
 ,
 } packet //	t
-a1")).
-Eval vm_compute in ("<<<M1865>>>" ++ check (runes_of_ascii "packet A {
-    B b `a
-    
-    b`,
-    B `a
-    
-    b`,
-    repeat B bs `a
-    
-    b`,
-}")).
-Eval vm_compute in ("<<<M857>>>" ++ check (runes_of_ascii "packet A {
+a1
+    {")).
+Eval vm_compute in ("<<<M872>>>" ++ check (runes_of_ascii "packet A {
   match k as n {
-    [1, ""bb"", 007, ""d"", 5, ""f"", 7, ""h""] : B
+    [""a"", 22, ""c c"", 4, ""e"", 66, ""g"", 8, ""i""] : B
     2 : C
   },
 }")).
-Eval vm_compute in ("<<<M390>>>" ++ check (runes_of_ascii "root packet SimpleMessage {
-	uint16 MsgType `" ++ [28040; 24687; 31867; 22411]%N ++ runes_of_ascii "`,
-	string JsonBody `Json" ++ [23383; 31526; 20018; 28040; 24687; 20307]%N ++ runes_of_ascii "`,
-}")).
-Eval vm_compute in ("<<<M1292>>>" ++ check (runes_of_ascii "
-
-  root
-    packet
-
-P
-
-    {
-	u8
-	s_u8,  repeat  u8 r_u8  , u16
-    b_len, }
-
-")).
-Eval vm_compute in ("<<<M803>>>" ++ check (runes_of_ascii "packet A {
+Eval vm_compute in ("<<<M613>>>" ++ check (runes_of_ascii "
+packet
+    asx {match u128 as lengthOf
+{
+//	t
+// `tick` ""quote"" 'q'
+255 : x ,
+    } } ,	}")).
+Eval vm_compute in ("<<<M584>>>" ++ check (runes_of_ascii "
+packet
+    asx {match u128 as {
+lengthOf
+//	t
+// `tick` ""quote"" 'q'
+255 : x ,
+    } ,	}")).
+Eval vm_compute in ("<<<M845>>>" ++ check (runes_of_ascii "packet A {
   match k as n {
-    [""a"", ""bb"", ""c c"", ""d""] : B
+    [""a"", 22, ""c c"", 4, ""e"", 66, ""g""] : B,
     2 : C
   },
 }")).
-Eval vm_compute in ("<<<M805>>>" ++ check (runes_of_ascii "packet A {
-  match k as n {
-    [1, ""bb"", 007, ""d""] : B
-    2 : C
-  },
+Eval vm_compute in ("<<<M1439>>>" ++ check (runes_of_ascii "// top
+root packet P {
+    // c3
+    char c,// c6a
+    // c6b
+    u8 x,// c9
+}// c10")).
+Eval vm_compute in ("<<<M1094>>>" ++ check (runes_of_ascii "packet A { u16 // a
+ len // b
+ @lengthOf( // c
+ body // d
+ ) // e
+ `d` // f
+ , }")).
+Eval vm_compute in ("<<<M1939>>>" ++ check (runes_of_ascii "  root
+	packet
+
+P{ 
+u8
+
+    s_u8 
+, 
+repeat
+    u8
+
+r_u8
+,	u16
+
+b_len
+	,} ")).
+Eval vm_compute in ("<<<M1630>>>" ++ check (runes_of_ascii "packet A {
+    B b `x
+    `,
+    B `x
+    `,
+    repeat B bs `x
+    `,
 }")).
-Eval vm_compute in ("<<<M864>>>" ++ check (runes_of_ascii "packet A { Inner { match k as n { [1,22,007,4,5,66,7,8] : B, }, }, }")).
-Eval vm_compute in ("<<<M534>>>" ++ check (runes_of_ascii "packet uint8x
+Eval vm_compute in ("<<<M768>>>" ++ check (runes_of_ascii "char = char[] options char[] ] uint64 metadata match 1 zchar[ int16")).
+Eval vm_compute in ("<<<M444>>>" ++ check (runes_of_ascii "packet uint8x
 { match pack
     as msg_type	{
-    0123456789 :	")).
-Eval vm_compute in ("<<<M1287>>>" ++ check (runes_of_ascii "root packet P {
-    repeat string ss,
-    repeat u16 ns,
-}
-")).
-Eval vm_compute in ("<<<M1245>>>" ++ check (runes_of_ascii "root
-    packet	P
-{repeat
-
-char 
-cs  ,u8
-
-    x ,} ")).
-Eval vm_compute in ("<<<M1214>>>" ++ check (runes_of_ascii "packet body { i32 f32a `{ , }` , }
-// c
-options { }")).
-Eval vm_compute in ("<<<M1555>>>" ++ check (runes_of_ascii "  root packet 
-P
-
-{char
-
-    c 
-,
-	u8 x
-,
-
-}
-")).
-Eval vm_compute in ("<<<M965>>>" ++ check (runes_of_ascii "options {
-    a = ""x\
-y"";
-    b = ""x\
-y""
+    0123456789 :")).
+Eval vm_compute in ("<<<M776>>>" ++ check (runes_of_ascii "packet A {
+  match k as n {
+    [""a""] : B
+    2 : C
+  },
 }")).
+Eval vm_compute in ("<<<M786>>>" ++ check (runes_of_ascii "packet A { Inner { match k as n { [1,22] : B, }, }, }")).
+Eval vm_compute in ("<<<M1218>>>" ++ check (runes_of_ascii "packet body { i32 f32a `{ , }` , } options {
+// c
+}")).
+Eval vm_compute in ("<<<M693>>>" ++ check (runes_of_ascii "// @lengthOf(
+packet i8i8 { u128 o , }
+options")).
+Eval vm_compute in ("<<<M1223>>>" ++ check (runes_of_ascii "// top
+packet // c0
+x { // c2
+}
+    // c3
+")).
 Eval vm_compute in ("<<<M708>>>" ++ check (runes_of_ascii "// @lengthOf(
 packet i8i8 { u128 o ,")).
-Eval vm_compute in ("<<<M958>>>" ++ check (runes_of_ascii "root packet A {
-    u8 x `
-x`,
+Eval vm_compute in ("<<<M1043>>>" ++ check (runes_of_ascii "packet A {
+ u8 x `d 	`, // c 	
 }")).
-Eval vm_compute in ("<<<M1003>>>" ++ check (runes_of_ascii "packet A {
- u8 x `d" ++ [8192]%N ++ runes_of_ascii "`, // c" ++ [8192]%N ++ runes_of_ascii "
+Eval vm_compute in ("<<<M1018>>>" ++ check (runes_of_ascii "packet A {
+ u8 x `d" ++ [8233]%N ++ runes_of_ascii "`, // c" ++ [8233]%N ++ runes_of_ascii "
 }")).
-Eval vm_compute in ("<<<M953>>>" ++ check (runes_of_ascii "packet A {
-    u8 x `
-x`,
+Eval vm_compute in ("<<<M947>>>" ++ check (runes_of_ascii "packet A {
+    u8 x `x
+`,
 }")).
-Eval vm_compute in ("<<<M1104>>>" ++ check (runes_of_ascii "
-// c
-MetaData tag { }")).
-Eval vm_compute in ("<<<M211>>>" ++ check (runes_of_ascii "MetaData
-roots {
-}
-
+Eval vm_compute in ("<<<M1111>>>" ++ check (runes_of_ascii "MetaData tag { } // c
 ")).
-Eval vm_compute in ("<<<M976>>>" ++ check (runes_of_ascii "packet A {
-}
-// c ")).
-Eval vm_compute in ("<<<M1057>>>" ++ check (runes_of_ascii "// c" ++ [6158]%N ++ runes_of_ascii "
+Eval vm_compute in ("<<<M1136>>>" ++ check (runes_of_ascii "MetaData u { } // c
+")).
+Eval vm_compute in ("<<<M987>>>" ++ check (runes_of_ascii "// c" ++ [160]%N ++ runes_of_ascii "
 packet A {
 }")).
-Eval vm_compute in ("<<<M1228>>>" ++ check (runes_of_ascii "packet x // c
-{ }")).
-Eval vm_compute in ("<<<M3>>>" ++ check (runes_of_ascii "options {}
-
+Eval vm_compute in ("<<<M1232>>>" ++ check (runes_of_ascii "packet x { } // c
 ")).
-Eval vm_compute in ("<<<M1015>>>" ++ check (runes_of_ascii "// c" ++ [8233]%N)).
-Eval vm_compute in ("<<<M72>>>" ++ check (@nil rune)).
+Eval vm_compute in ("<<<M1391>>>" ++ check (runes_of_ascii "packet x {
+}
+// c")).
+Eval vm_compute in ("<<<M1895>>>" ++ check (runes_of_ascii "// @lengthOf(")).
+Eval vm_compute in ("<<<M1010>>>" ++ check (runes_of_ascii "// c" ++ [8232]%N)).
+Eval vm_compute in ("<<<M735>>>" ++ check ([0]%N)).
